@@ -82,7 +82,7 @@ def bufrCalls (a : Args) : String :=
     | none => "bad-op"
     | some u =>
       String.intercalate " "
-        (runBufCalls grow { rd := Rd.reset cap u, count := 0 } (splitList (a.getD "calls" "")))
+        (runBufCalls grow { rd := Rd.new cap u, count := 0 } (splitList (a.getD "calls" "")))
   | _, _, _ => "bad-op"
 
 def runBufProg (cmp : Compression) (grow : Nat → Nat) (maxOff : Nat) : FileRd → List String → List String
